@@ -97,6 +97,31 @@ CHECKS.update({
             'Value grid is finite: real-valued inputs are covered only on the '
             'grid (stated in DESIGN.md section 1).', '7/C17'),
 })
+CHECKS.update({
+    'C11': (E2, 'explicit-state search over all update/load histories up to a depth '
+            'bound on a fresh Quantizer, lock-step with a reference recipe model, '
+            'revisit agreement',
+            'All histories of length <=3 (quick) / <=4 (thorough) over the event '
+            'alphabet (3 regexes x 3-4 operator selectors x 6-8 config/algorithm '
+            'combinations incl. refused ones, 4 loads) are replayed on fresh '
+            'objects; at every state the exported rule list and a 25-entry '
+            'resolution table equal the reference model, queries are pure, '
+            'refused calls do not change state, and states reached through '
+            'different histories resolve identically.',
+            'The accept/refuse answer of the support check is an input of the '
+            'reference model. Longer histories are not covered.', '7/C11'),
+    'C12': (E2, 'explicit-state search over the recipe state space; at every state '
+            'JSON round trip + reload into a fresh Quantizer, differential '
+            'comparison incl. quantized bytes',
+            'At every reachable recipe state (depth <=3 quick / <=4 thorough) the '
+            'exported recipe reloads without exception, re-exports equally and '
+            'resolves identically; for depth <=2 three fixed models quantize to '
+            'byte-identical output from original and reloaded recipe, also '
+            'through QuantizationResult.save(); every shipped recipe file loads '
+            'and default files re-export to themselves.',
+            'Byte comparison uses three fixed models and one calibration result.',
+            '7/C12'),
+})
 NOT_YET = {
 }
 
